@@ -169,8 +169,46 @@ func histOracle(run *vh.Run, h appdrv.History, rs []appdrv.Resp, finalVals map[s
 	// the oracle's own table of validator identities: written by ACCEPTED check-ins only
 	// (a check-in answered with a non-zero code must not register or change an identity)
 	ownIDs := map[string]string{}
+	// the oracle's own record of the highest main-chain block each sender reported (accepted
+	// block-seen messages), from which it decides itself when a configuration has to be started
+	ownSeen := map[string]uint64{}
+	ownStarted := map[int]bool{}
 	for i, c := range h.Calls {
 		appdrv.Exec(a, c)
+		if c.Kind == "deliver" && rs[i].Panic == "" && rs[i].Code == 0 {
+			if m, ok := appdrv.MessageOf(c.Tx); ok && m.GetBlockSeen() != nil {
+				if _, signer, ok := appdrv.DecodeTx(c.Tx); ok {
+					if bn := m.GetBlockSeen().BlockNumber; bn > ownSeen[string(signer)] {
+						ownSeen[string(signer)] = bn
+					}
+				}
+			}
+		}
+		if c.Kind == "end" && rs[i].Panic == "" {
+			// a configuration is started exactly when a threshold of the PRECEDING configuration's
+			// keypers (its own for the first one) have reported a block at or past its activation block
+			for j, cfg := range a.Configs {
+				prev := a.Configs[0]
+				if j > 0 {
+					prev = a.Configs[j-1]
+				}
+				if !ownStarted[j] {
+					var n uint64
+					for _, k := range prev.Keypers {
+						if b, ok := ownSeen[string(k.Bytes())]; ok && b >= cfg.ActivationBlockNumber {
+							n++
+						}
+					}
+					if n >= prev.Threshold {
+						ownStarted[j] = true
+					}
+				}
+				if ownStarted[j] != cfg.Started {
+					run.Violate(vh.Violation{Key: "C12:config-start-differs-from-block-seen-quorum", What: fmt.Sprintf("call %d: configuration %d started=%v, but by the accepted block-seen reports it should be started=%v", i, j, cfg.Started, ownStarted[j]), Case: histCase{"hist", h}})
+					return
+				}
+			}
+		}
 		if c.Kind == "deliver" && rs[i].Panic == "" {
 			if m, ok := appdrv.MessageOf(c.Tx); ok && m.GetCheckIn() != nil && rs[i].Code == 0 {
 				if _, signer, ok := appdrv.DecodeTx(c.Tx); ok {
